@@ -56,6 +56,9 @@ FFI = {
                          (r'\blibc::sysconf\(', 'crate::verif_ffi::sysconf('),
                          (r'io::Error::last_os_error\(\)', 'crate::verif_ffi::last_os_error()')],
     'src/bitmap/backend/atomic_bitmap.rs': [(r'\blibc::sysconf\(', 'crate::verif_ffi::sysconf(')],
+    # File::seek / rewind are foreign calls (lseek64): check_file_offset asks a model for the file size
+    'src/mmap/mod.rs': [(r'\bfile\s*\.seek\(SeekFrom::End\(0\)\)', 'crate::verif_ffi::seek_end(&file)'),
+                        (r'\bfile\.rewind\(\)', 'crate::verif_ffi::rewind(&file)')],
     'src/io.rs': [(r'\blibc::read\(', 'crate::verif_ffi::read('), (r'\blibc::write\(', 'crate::verif_ffi::write('),
                   (r'std::io::Error::last_os_error\(\)', 'crate::verif_ffi::last_os_error()'),
                   # O3b: io::Error::new(kind, "msg") boxes a String (38 GB / 10 min in CBMC, Kani cannot stub
@@ -107,6 +110,25 @@ pub mod verif_ffi {
         let ps: usize = if k % 3 == 0 { 4096 } else if k % 3 == 1 { 16384 } else { 65536 };
         PAGE_SIZE = ps;
         ps as i64
+    }
+    pub static mut SEEK_CALLS: usize = 0;
+    pub static mut SEEK_AFTER_MMAP: bool = false;
+    pub static mut FILE_SIZE: u64 = 0;
+    /// File::seek(SeekFrom::End(0)): an arbitrary file size, or an error
+    pub fn seek_end(_f: &std::fs::File) -> std::io::Result<u64> {
+        unsafe {
+            SEEK_CALLS += 1;
+            if MMAP_CALLS > 0 { SEEK_AFTER_MMAP = true; }
+            let fail: bool = kani::any();
+            if fail { return Err(std::io::Error::from(std::io::ErrorKind::Other)); }
+            let sz: u64 = kani::any();
+            FILE_SIZE = sz;
+            Ok(sz)
+        }
+    }
+    pub fn rewind(_f: &std::fs::File) -> std::io::Result<()> {
+        let fail: bool = kani::any();
+        if fail { Err(std::io::Error::from(std::io::ErrorKind::Other)) } else { Ok(()) }
     }
     pub static mut READ_CALLS: usize = 0;
     pub static mut WRITE_CALLS: usize = 0;
